@@ -54,18 +54,34 @@ WHITELIST = frozenset([
 
 def split_parts(arg):
     # Break in pieces at undoubled semicolons and
-    # change double semicolons to singles:
+    # change double semicolons to singles.
+    #
+    # The pieces are slices of the argument (their source positions are
+    # exact); the semicolon which ends a character entity does not
+    # separate anything.
+    protected = set()
     i = 0
-    while i < len(arg):
-        m = ENTITY_RE.search(arg[i:])
+    while True:
+        m = ENTITY_RE.search(arg, i)
         if m is None:
             break
-        arg = arg[:i + m.end()] + ';' + arg[i + m.end():]
-        i += m.end()
+        protected.add(m.end() - 1)
+        i = m.end()
 
-    arg = arg.replace(";;", "\0")
-    parts = arg.split(';')
-    parts = [p.replace("\0", ";") for p in parts]
+    parts = []
+    start = i = 0
+    length = len(arg)
+    while i < length:
+        if arg[i] == ';' and i not in protected:
+            if i + 1 < length and arg[i + 1] == ';':
+                i += 2
+                continue
+            parts.append(arg[start:i])
+            start = i + 1
+        i += 1
+    parts.append(arg[start:])
+
+    parts = [p.replace(";;", ";") for p in parts]
     if len(parts) > 1 and not parts[-1].strip():
         del parts[-1]  # It ended in a semicolon
 
